@@ -93,6 +93,16 @@ def key_loop_inv(index):
     return index >= 0
 
 
+def _abstract_message(ctx, ns):
+    from pyvc.values import SObj, SSeq
+    from pyvc.seqs import SymDict
+    m = ns["self"]
+    if not isinstance(m, SObj):
+        return False
+    avps = m.idict.known.get("_avps") if isinstance(m.idict, SymDict) else m.idict.get("_avps")
+    return isinstance(m.idict, SymDict) or isinstance(avps, SSeq)
+
+
 @contract("bromelia.base.DiameterMessage.append", prop="C01", name="length")
 class _Append:
     """append(avp): the AVP becomes the last list element; unless the message was decoded from the
@@ -100,6 +110,7 @@ class _Append:
     args = {"self": msg_shape(), "avp": any_avp_shape()}
     loops = {0: Loop(vars={"index": T.Int()}, inv=key_loop_inv)}
     at_calls = True
+    accepts = _abstract_message        # concrete messages (known AVP list and names) execute the real body
     modifies = {"self._avps": T.Seq(AVP_ELEM), "self._header._length": T.Bytes(3)}
     open_dicts = ("self",)
     raises = ()
